@@ -19,6 +19,8 @@ type fprops struct {
 	desc      *string
 	dflt      *string
 	mandatory *bool
+	minEl     *int
+	maxEl     *int
 }
 
 func (p fprops) patch(q fprops) fprops {
@@ -33,6 +35,12 @@ func (p fprops) patch(q fprops) fprops {
 	}
 	if q.mandatory != nil {
 		p.mandatory = q.mandatory
+	}
+	if q.minEl != nil {
+		p.minEl = q.minEl
+	}
+	if q.maxEl != nil {
+		p.maxEl = q.maxEl
 	}
 	return p
 }
@@ -53,7 +61,13 @@ func (p fprops) toks() []string {
 		}
 		return "h" + core.Hex(*s)
 	}
-	return []string{ob(p.config), os(p.desc), os(p.dflt), ob(p.mandatory)}
+	on := func(n *int) string {
+		if n == nil {
+			return "-"
+		}
+		return fmt.Sprint(*n)
+	}
+	return []string{ob(p.config), os(p.desc), os(p.dflt), ob(p.mandatory), on(p.minEl), on(p.maxEl)}
 }
 
 func (p fprops) yang(kind string) string {
@@ -69,6 +83,12 @@ func (p fprops) yang(kind string) string {
 	}
 	if p.mandatory != nil {
 		fmt.Fprintf(&b, " mandatory %v;", *p.mandatory)
+	}
+	if p.minEl != nil {
+		fmt.Fprintf(&b, " min-elements %d;", *p.minEl)
+	}
+	if p.maxEl != nil {
+		fmt.Fprintf(&b, " max-elements %d;", *p.maxEl)
 	}
 	return b.String()
 }
@@ -100,6 +120,7 @@ type fgroup struct {
 	body  []*fnode
 	where string // module | local | sub | imp
 	uses  int
+	needsNode bool // holds an action/notification at its top: may be used inside a container or list only
 }
 
 // expanded tree (the harness's own expansion, an independent second opinion besides the Lean model)
@@ -196,6 +217,19 @@ func (g *c01gen) props(kind string, configFalseAbove bool, isKey bool) fprops {
 		f := false
 		p.config = &f
 	}
+	if kind == "list" {
+		switch g.r.Intn(6) {
+		case 0:
+			n := g.r.Intn(3)
+			p.minEl = &n
+		case 1:
+			n := 1 + g.r.Intn(4)
+			p.maxEl = &n
+		case 2:
+			lo, hi := 1+g.r.Intn(2), 3+g.r.Intn(3)
+			p.minEl, p.maxEl = &lo, &hi
+		}
+	}
 	if kind == "leaf" && !isKey {
 		switch g.r.Intn(5) {
 		case 0:
@@ -218,7 +252,8 @@ func topNames(ns []*fnode) []string {
 }
 
 // allowed: which groupings a body may use (by placement of the grouping it is written in)
-func (g *c01gen) body(depth int, cfgFalse bool, within string, n int) []*fnode {
+func (g *c01gen) body(depth int, cfgFalse bool, within string, n int, inNode ...bool) []*fnode {
+	parentIsNode := len(inNode) > 0 && inNode[0]
 	var out []*fnode
 	used := map[string]bool{}
 	for i := 0; i < n; i++ {
@@ -232,17 +267,17 @@ func (g *c01gen) body(depth int, cfgFalse bool, within string, n int) []*fnode {
 			nm := g.name("c")
 			p := g.props("cont", cfgFalse, false)
 			cf := cfgFalse || (p.config != nil && !*p.config)
-			out = append(out, &fnode{kind: "cont", name: nm, p: p, kids: g.body(depth+1, cf, within, 1+g.r.Intn(3))})
+			out = append(out, &fnode{kind: "cont", name: nm, p: p, kids: append(g.body(depth+1, cf, within, 1+g.r.Intn(3), true), g.special(depth, within)...)})
 			used[nm] = true
 		case k < 7:
 			nm := g.name("l")
 			p := g.props("list", cfgFalse, false)
 			cf := cfgFalse || (p.config != nil && !*p.config)
 			key := &fnode{kind: "leaf", name: g.name("k"), isKey: true, p: g.props("leaf", cf, true)}
-			out = append(out, &fnode{kind: "list", name: nm, p: p, kids: append([]*fnode{key}, g.body(depth+1, cf, within, 1+g.r.Intn(2))...)})
+			out = append(out, &fnode{kind: "list", name: nm, p: p, kids: append(append([]*fnode{key}, g.body(depth+1, cf, within, 1+g.r.Intn(2), true)...), g.special(depth, within)...)})
 			used[nm] = true
 		default:
-			u := g.uses(depth, cfgFalse, within, used)
+			u := g.uses(depth, cfgFalse, within, used, parentIsNode)
 			if u != nil {
 				out = append(out, u)
 				for _, nm := range topNames([]*fnode{u}) {
@@ -254,13 +289,53 @@ func (g *c01gen) body(depth int, cfgFalse bool, within string, n int) []*fnode {
 	return out
 }
 
-func (g *c01gen) uses(depth int, cfgFalse bool, within string, siblingNames map[string]bool) *fnode {
+// an action and/or a notification for a container or list: their content is written like any body (it may use
+// groupings), never states config
+func (g *c01gen) special(depth int, within string) []*fnode {
+	var out []*fnode
+	if depth >= 2 {
+		return nil
+	}
+	descr := func() fprops {
+		var p fprops
+		if g.r.Chance(40) {
+			d := core.Pick(g.r, []string{"does it", "tells", "x"})
+			p.desc = &d
+		}
+		return p
+	}
+	if g.r.Chance(22) {
+		in := &fnode{kind: "cont", name: "input", kids: g.body(depth+2, true, within, 1+g.r.Intn(2))}
+		op := &fnode{kind: "cont", name: "output", kids: g.body(depth+2, true, within, 1+g.r.Intn(2))}
+		c01noConfig(in.kids)
+		c01noConfig(op.kids)
+		out = append(out, &fnode{kind: "cont", name: g.name("act"), p: descr(), kids: []*fnode{in, op}})
+	}
+	if g.r.Chance(15) {
+		ks := g.body(depth+2, true, within, 1+g.r.Intn(2))
+		c01noConfig(ks)
+		out = append(out, &fnode{kind: "cont", name: g.name("ntf"), p: descr(), kids: ks})
+	}
+	return out
+}
+
+func c01noConfig(ns []*fnode) {
+	for _, n := range ns {
+		n.p.config = nil
+		c01noConfig(n.kids)
+	}
+}
+
+func (g *c01gen) uses(depth int, cfgFalse bool, within string, siblingNames map[string]bool, parentIsNode bool) *fnode {
 	var grp *fgroup
 	// reuse an earlier grouping where its names do not collide and its placement is visible from here
 	var cands []*fgroup
 	for _, c := range g.groups {
 		if c.where == "local" {
 			continue
+		}
+		if c.needsNode && !parentIsNode {
+			continue // it has an action or notification of its own: usable inside a container or list only
 		}
 		if within == "imp" && c.where != "imp" {
 			continue
@@ -296,6 +371,13 @@ func (g *c01gen) uses(depth int, cfgFalse bool, within string, siblingNames map[
 		}
 		// the grouping is written without knowing where it will be used: nothing above it is config false
 		grp.body = g.body(depth+1, false, in, 1+g.r.Intn(3))
+		if parentIsNode && g.r.Chance(35) {
+			// an action / a notification directly in the grouping (the resolver copies these separately from the data nodes)
+			if sp := g.special(0, in); len(sp) > 0 {
+				grp.body = append(grp.body, sp...)
+				grp.needsNode = true
+			}
+		}
 		g.groups = append(g.groups, grp)
 		for _, nm := range topNames(grp.body) {
 			if siblingNames[nm] {
@@ -315,6 +397,9 @@ func (g *c01gen) uses(depth int, cfgFalse bool, within string, siblingNames map[
 	var walk func(ts []*tnode, prefix []string)
 	walk = func(ts []*tnode, prefix []string) {
 		for _, t := range ts {
+			if c01special(t.name) != "" {
+				continue
+			}
 			p := append(append([]string{}, prefix...), t.name)
 			paths = append(paths, p)
 			walk(t.kids, p)
@@ -352,6 +437,20 @@ func (g *c01gen) uses(depth int, cfgFalse bool, within string, siblingNames map[
 				}
 			}
 		}
+		if t.kind == "list" && g.r.Chance(60) {
+			// refining the element bounds, down to 0 and up
+			switch g.r.Intn(3) {
+			case 0:
+				z := 0
+				patch.minEl = &z
+			case 1:
+				n := g.r.Intn(3)
+				patch.minEl = &n
+			default:
+				n := 5 + g.r.Intn(4)
+				patch.maxEl = &n
+			}
+		}
 		if !t.isKey && g.r.Chance(20) {
 			f := false
 			patch.config = &f
@@ -367,7 +466,7 @@ func (g *c01gen) uses(depth int, cfgFalse bool, within string, siblingNames map[
 	walk2 = func(ts []*tnode, prefix []string) {
 		for _, t := range ts {
 			p := append(append([]string{}, prefix...), t.name)
-			if t.kind != "leaf" {
+			if t.kind != "leaf" && c01special(t.name) == "" {
 				conts = append(conts, p)
 				walk2(t.kids, p)
 			}
@@ -381,6 +480,100 @@ func (g *c01gen) uses(depth int, cfgFalse bool, within string, siblingNames map[
 	}
 	// nodes added below something that may be config false must not state config: body(...,cfgFalse=true) sees to it
 	return u
+}
+
+// an action or a notification is modelled as a container: the expansion rules are the same.  It is recognised by
+// its name (act<N>, ntf<N>); an action's children are the containers "input" and "output"
+func c01special(name string) string {
+	if strings.HasPrefix(name, "act") {
+		return "action"
+	}
+	if strings.HasPrefix(name, "ntf") {
+		return "notification"
+	}
+	return ""
+}
+
+// c01norm brings a canonical dump into the form all sides can agree on: actions and notifications (kept in maps by
+// the library, so without an order among the siblings) go behind the data nodes, sorted by name; below them config
+// is not compared (it does not apply inside rpc/action/notification content)
+func c01norm(canon string) string {
+	if !strings.HasPrefix(canon, "{") {
+		return canon
+	}
+	type ent struct {
+		head string // "kind name props"
+		body string // "{...}" or ""
+	}
+	var parse func(s string, pos int) ([]ent, int)
+	parse = func(s string, pos int) ([]ent, int) {
+		// s[pos] == '{'
+		pos++
+		var out []ent
+		for pos < len(s) && s[pos] != '}' {
+			start := pos
+			for pos < len(s) && s[pos] != '{' && s[pos] != ';' {
+				pos++
+			}
+			e := ent{head: s[start:pos]}
+			if pos < len(s) && s[pos] == '{' {
+				bstart := pos
+				depth := 0
+				for pos < len(s) {
+					if s[pos] == '{' {
+						depth++
+					} else if s[pos] == '}' {
+						depth--
+						if depth == 0 {
+							pos++
+							break
+						}
+					}
+					pos++
+				}
+				e.body = s[bstart:pos]
+			}
+			// "; "
+			for pos < len(s) && (s[pos] == ';' || s[pos] == ' ') {
+				pos++
+			}
+			out = append(out, e)
+		}
+		return out, pos + 1
+	}
+	var render func(s string, blank bool) string
+	render = func(s string, blank bool) string {
+		ents, _ := parse(s, 0)
+		var normal, special []ent
+		for _, e := range ents {
+			f := strings.Fields(e.head)
+			if len(f) >= 2 && c01special(f[1]) != "" {
+				special = append(special, e)
+			} else {
+				normal = append(normal, e)
+			}
+		}
+		sort.SliceStable(special, func(i, j int) bool { return strings.Fields(special[i].head)[1] < strings.Fields(special[j].head)[1] })
+		var b strings.Builder
+		b.WriteString("{")
+		for _, e := range append(normal, special...) {
+			f := strings.Fields(e.head)
+			bl := blank || (len(f) >= 2 && c01special(f[1]) != "")
+			if bl && len(f) >= 3 {
+				ps := strings.Split(f[2], ",")
+				ps[0] = "-"
+				f[2] = strings.Join(ps, ",")
+			}
+			b.WriteString(strings.Join(f, " "))
+			if e.body != "" {
+				b.WriteString(render(e.body, bl))
+			}
+			b.WriteString("; ")
+		}
+		b.WriteString("}")
+		return b.String()
+	}
+	return render(canon, false)
 }
 
 // ---- rendering
@@ -437,7 +630,14 @@ func (t c01text) nodes(ns []*fnode, indent string, from string) string {
 		case "leaf":
 			fmt.Fprintf(&b, "%sleaf %s { type string;%s }\n", indent, n.name, n.p.yang("leaf"))
 		case "cont":
-			fmt.Fprintf(&b, "%scontainer %s {%s\n%s%s}\n", indent, n.name, n.p.yang("cont"), t.nodes(n.kids, indent+"  ", from), indent)
+			switch c01special(n.name) {
+			case "action":
+				fmt.Fprintf(&b, "%saction %s {%s\n%s  input {\n%s%s  }\n%s  output {\n%s%s  }\n%s}\n", indent, n.name, n.p.yang("cont"), indent, t.nodes(n.kids[0].kids, indent+"    ", from), indent, indent, t.nodes(n.kids[1].kids, indent+"    ", from), indent, indent)
+			case "notification":
+				fmt.Fprintf(&b, "%snotification %s {%s\n%s%s}\n", indent, n.name, n.p.yang("cont"), t.nodes(n.kids, indent+"  ", from), indent)
+			default:
+				fmt.Fprintf(&b, "%scontainer %s {%s\n%s%s}\n", indent, n.name, n.p.yang("cont"), t.nodes(n.kids, indent+"  ", from), indent)
+			}
 		case "list":
 			fmt.Fprintf(&b, "%slist %s { key %s;%s\n%s%s}\n", indent, n.name, n.kids[0].name, n.p.yang("list"), t.nodes(n.kids, indent+"  ", from), indent)
 		case "uses":
@@ -479,7 +679,14 @@ func c01inline(ts []*tnode, indent string) string {
 		case "leaf":
 			fmt.Fprintf(&b, "%sleaf %s { type string;%s }\n", indent, n.name, n.p.yang("leaf"))
 		case "cont":
-			fmt.Fprintf(&b, "%scontainer %s {%s\n%s%s}\n", indent, n.name, n.p.yang("cont"), c01inline(n.kids, indent+"  "), indent)
+			switch c01special(n.name) {
+			case "action":
+				fmt.Fprintf(&b, "%saction %s {%s\n%s  input {\n%s%s  }\n%s  output {\n%s%s  }\n%s}\n", indent, n.name, n.p.yang("cont"), indent, c01inline(n.kids[0].kids, indent+"    "), indent, indent, c01inline(n.kids[1].kids, indent+"    "), indent, indent)
+			case "notification":
+				fmt.Fprintf(&b, "%snotification %s {%s\n%s%s}\n", indent, n.name, n.p.yang("cont"), c01inline(n.kids, indent+"  "), indent)
+			default:
+				fmt.Fprintf(&b, "%scontainer %s {%s\n%s%s}\n", indent, n.name, n.p.yang("cont"), c01inline(n.kids, indent+"  "), indent)
+			}
 		case "list":
 			fmt.Fprintf(&b, "%slist %s { key %s;%s\n%s%s}\n", indent, n.name, n.kids[0].name, n.p.yang("list"), c01inline(n.kids, indent+"  "), indent)
 		}
@@ -521,9 +728,50 @@ func c01dump(defs []meta.Definition) string {
 				p.mandatory = &m
 			}
 		}
+		if li, ok := d.(*meta.List); ok {
+			if li.IsMinElementsSet() {
+				n := li.MinElements()
+				p.minEl = &n
+			}
+			if li.IsMaxElementsSet() {
+				n := li.MaxElements()
+				p.maxEl = &n
+			}
+		}
 		fmt.Fprintf(&b, "%s %s %s", kind, d.Ident(), strings.Join(p.toks(), ","))
 		if hdd, ok := d.(meta.HasDataDefinitions); ok {
-			b.WriteString(c01dump(hdd.DataDefinitions()))
+			inner := c01dump(hdd.DataDefinitions())
+			// actions and notifications of the node, as containers (c01norm orders them)
+			extra := ""
+			descOf := func(x interface{}) fprops {
+				var q fprops
+				if ds, ok := x.(meta.Describable); ok && ds.Description() != "" {
+					s := ds.Description()
+					q.desc = &s
+				}
+				return q
+			}
+			if ha, ok := d.(meta.HasActions); ok {
+				for _, a := range ha.Actions() {
+					in, out := "{}", "{}"
+					if a.Input() != nil {
+						in = c01dump(a.Input().DataDefinitions())
+					}
+					if a.Output() != nil {
+						out = c01dump(a.Output().DataDefinitions())
+					}
+					extra += fmt.Sprintf("cont %s %s{cont input %s%s; cont output %s%s; }; ", a.Ident(), strings.Join(descOf(a).toks(), ","), strings.Join(fprops{}.toks(), ","), in, strings.Join(fprops{}.toks(), ","), out)
+				}
+			}
+			if hn, ok := d.(meta.HasNotifications); ok {
+				for _, n := range hn.Notifications() {
+					extra += fmt.Sprintf("cont %s %s%s; ", n.Ident(), strings.Join(descOf(n).toks(), ","), c01dump(n.DataDefinitions()))
+				}
+			}
+			if extra != "" {
+				inner = strings.TrimSuffix(inner, "}") + extra + "}"
+			}
+			b.WriteString(inner)
 		}
 		b.WriteString("; ")
 	}
@@ -556,12 +804,12 @@ func (t *c01tr) canon() string {
 		switch t.next() {
 		case "L":
 			name := core.Unhex(t.next())
-			p := []string{t.next(), t.next(), t.next(), t.next()}
+			p := []string{t.next(), t.next(), t.next(), t.next(), t.next(), t.next()}
 			fmt.Fprintf(&b, "leaf %s %s; ", name, strings.Join(p, ","))
 		case "C":
 			k := map[string]string{"c": "cont", "l": "list"}[t.next()]
 			name := core.Unhex(t.next())
-			p := []string{t.next(), t.next(), t.next(), t.next()}
+			p := []string{t.next(), t.next(), t.next(), t.next(), t.next(), t.next()}
 			fmt.Fprintf(&b, "%s %s %s%s; ", k, name, strings.Join(p, ","), t.canon())
 		default:
 			t.bad = true
@@ -572,7 +820,7 @@ func (t *c01tr) canon() string {
 }
 
 func C01(c *core.Ctx) {
-	c.Rule = "generated module sets: a main module whose body is built from leaves, containers, keyed lists and uses of groupings placed at module level, in the using container (sibling scope), in a submodule and in an imported module (prefixed uses), groupings nested in groupings, a grouping used several times with different refines (description, default, mandatory, config) and uses-augments (into containers and lists of the copy), module-level augments into plain and into grouping-expanded containers in textual order, config false stated on some nodes; the compiled tree (kind, name, order, effective config, description, default, mandatory of every node) compared with the Lean expansion of the factored form, with the harness's own expansion, and with the compiled tree of the same schema written inline without any grouping, augment or second file. non-trivial = module set with ≥2 uses, ≥1 refine and ≥1 augment; distinct by module set"
+	c.Rule = "generated module sets: a main module whose body is built from leaves, containers, keyed lists and uses of groupings placed at module level, in the using container (sibling scope), in a submodule and in an imported module (prefixed uses), groupings nested in groupings, a grouping used several times with different refines (description, default, mandatory, config, min-elements incl. 0, max-elements) and uses-augments (into containers and lists of the copy), module-level augments into plain and into grouping-expanded containers in textual order, config false stated on some nodes; the compiled tree (kind, name, order, effective config, description, default, mandatory, min-/max-elements of every node) compared with the Lean expansion of the factored form, with the harness's own expansion, and with the compiled tree of the same schema written inline without any grouping, augment or second file. non-trivial = module set with ≥2 uses, ≥1 refine and ≥1 augment; distinct by module set"
 	c.Assumptions = append(c.Assumptions,
 		"every leaf is of type string (types are C02); if-feature, choice/case, deviations and rpc/notification content are not generated here (C11 covers feature guards, C09/C06 choices)",
 		"explicit 'config true' is never written (only 'config false'), so every generated module set is valid wherever a grouping is used")
@@ -639,7 +887,7 @@ func C01(c *core.Ctx) {
 		walk = func(ts []*tnode, prefix []string) {
 			for _, t := range ts {
 				p := append(append([]string{}, prefix...), t.name)
-				if t.kind != "leaf" {
+				if t.kind != "leaf" && c01special(t.name) == "" {
 					conts = append(conts, p)
 					walk(t.kids, p)
 				}
@@ -715,6 +963,8 @@ func C01(c *core.Ctx) {
 		}
 		factored := load(mainY)
 		inline := load(inlineY)
+		c.Count("actions_in_text", fmt.Sprint(c01min(strings.Count(mainY+subY+libY, " action "), 4)))
+		c.Count("notifications_in_text", fmt.Sprint(c01min(strings.Count(mainY+subY+libY, " notification "), 4)))
 		c.Evaluations += 2
 		nUses, nRef, nAug := c01count(body, g)
 		c.Count("uses", fmt.Sprint(c01min(nUses, 6)))
@@ -754,6 +1004,7 @@ func C01(c *core.Ctx) {
 		if i%97 == 0 {
 			c.Sample(map[string]interface{}{"library": short(p.factored), "model": short(model)})
 		}
+		model, p.ref, p.factored, p.inline = c01norm(model), c01norm(p.ref), c01norm(p.factored), c01norm(p.inline)
 		if model != p.ref {
 			c.Violation(core.Replay{Kind: "harness", Class: "model-vs-harness-expansion", Summary: "the Lean expansion and the harness's own expansion disagree: " + c06firstDiff(strings.ReplaceAll(model, "; ", ";\n"), strings.ReplaceAll(p.ref, "; ", ";\n")), Input: p.input, Model: model, Spec: p.ref, NoInputFound: true})
 			continue
@@ -871,7 +1122,16 @@ func c01inlineCfg(ts []*tnode, indent string, inherited bool) string {
 		case "leaf":
 			fmt.Fprintf(&b, "%sleaf %s { type string;%s }\n", indent, n.name, p.yang("leaf"))
 		case "cont":
-			fmt.Fprintf(&b, "%scontainer %s {%s\n%s%s}\n", indent, n.name, p.yang("cont"), c01inlineCfg(n.kids, indent+"  ", eff), indent)
+			switch c01special(n.name) {
+			case "action":
+				p.config = nil
+				fmt.Fprintf(&b, "%saction %s {%s\n%s  input {\n%s%s  }\n%s  output {\n%s%s  }\n%s}\n", indent, n.name, p.yang("cont"), indent, c01inlineCfg(n.kids[0].kids, indent+"    ", eff), indent, indent, c01inlineCfg(n.kids[1].kids, indent+"    ", eff), indent, indent)
+			case "notification":
+				p.config = nil
+				fmt.Fprintf(&b, "%snotification %s {%s\n%s%s}\n", indent, n.name, p.yang("cont"), c01inlineCfg(n.kids, indent+"  ", eff), indent)
+			default:
+				fmt.Fprintf(&b, "%scontainer %s {%s\n%s%s}\n", indent, n.name, p.yang("cont"), c01inlineCfg(n.kids, indent+"  ", eff), indent)
+			}
 		case "list":
 			fmt.Fprintf(&b, "%slist %s { key %s;%s\n%s%s}\n", indent, n.name, n.kids[0].name, p.yang("list"), c01inlineCfg(n.kids, indent+"  ", eff), indent)
 		}
